@@ -3,6 +3,7 @@
    "useless elsewhere" is proved as: a response accepted under two nonces exhibits a collision. *)
 From Coq Require Import List NArith Lia Bool.
 From MM Require Import Lib.Bytes Lib.Sha1 Model.Parse Model.Auth Proofs.AuthProofs Gen.FactsAuth.
+From MM Require Import Gen.FactsOutline.
 Import ListNotations.
 Open Scope N_scope.
 
@@ -17,6 +18,12 @@ Theorem c02_source_shape :
   connection_connection_handle_change_user_ok = true /\ packets_make_auth_switch_request_ok = true /\
   packets_parse_handshake_response_41_ok = true /\ packets_parse_com_change_user_ok = true.
 Proof. repeat split; reflexivity. Qed.
+
+(* the modules this property rests on define the functions, classes, methods and class-level names they defined when the
+   model was transcribed - nothing added (an override, a new helper in the path), removed or renamed *)
+Theorem c02_module_outlines : translated_outline = true /\ outline_auth_ok = true /\ outline_connection_ok = true /\ outline_utils_ok = true.
+Proof. repeat split; reflexivity. Qed.
+
 
 Section AnyHash.
 Variable H : bytes -> bytes.
